@@ -2,6 +2,8 @@ import PrysmVerif.Generated.C11
 import PrysmVerif.Lemmas.C11Maps
 import PrysmVerif.Lemmas.C11Py
 import PrysmVerif.Lemmas.C11Real
+import PrysmVerif.Lemmas.C11Sem
+import Mathlib.Tactic.LinearCombination
 import Mathlib.Data.Set.Function
 /-!
 # C11 — Zernike (Noll, Fringe, ANSI) and XY single-index conventions are bijections onto the valid orders
@@ -9,8 +11,15 @@ import Mathlib.Data.Set.Function
 Every theorem quantifies over **every** index / every valid pair (no bound).  The subjects
 `Generated.C11.*` are re-translated from the current prysm source on every run (whole function bodies,
 including the list building of `noll_to_nm` and the `while` loops of `xy_j_to_mn`); the floating-point
-`ceil(sqrt(.))` idioms are read as the exact integers they denote (validated against NumPy by the
-correspondence run, see harness/c11.py).
+`ceil(sqrt(.))` idioms are read as the exact integers they denote.  Section 3 proves that reading exact over the
+reals, and — for a correctly rounded binary64 square root, arguments below 2^52 — exact for the rounded value as well;
+what remains validated-only (correspondence run, harness/c11.py) is that NumPy's `sqrt` is correctly rounded and that
+the integer-valued double arithmetic around it is exact.  Above 2^52 the real functions leave the convention
+(first at Fringe j = 2^52+1), so "every index" below means: of the exact-arithmetic reading.
+
+When a translator item is `untranslatable` its generated definition defers to `Model.C11`, the corresponding `gen_*`
+obligation is closed by `rfl` and says nothing about the source (the run prints TIE-DEGRADED); the harness then
+replaces the missing tie by a much wider execution sweep.
 
 Section 1 (translated obligations): each generated definition equals the closed form of the convention
 (`Model.C11.*`, written independently of the source) on the whole index set.
@@ -25,11 +34,11 @@ open Model.C11
 
 /-! ## 1. translated obligations: generated definition = closed form, for all inputs in scope -/
 
-/-- `mathops.sign` is `-1` below zero and `+1` otherwise -/
+/-- (pin, no content beyond the generated text) `mathops.sign` is `-1` below zero and `+1` otherwise; fails when the helper is edited -/
 theorem gen_sign (x : Int) : Generated.C11.sign x = if x < 0 then -1 else 1 := by
   simp only [Generated.C11.sign]
 
-/-- `mathops.is_odd` is the parity bit -/
+/-- (pin, no content beyond the generated text) `mathops.is_odd` is the parity bit; fails when the helper is edited -/
 theorem gen_isOdd (x : Int) : Generated.C11.isOdd x = x % 2 := by
   simp only [Generated.C11.isOdd]
 
@@ -39,7 +48,10 @@ theorem gen_ansiJToNm (j : Int) (hj : 0 ≤ j) : Generated.C11.ansiJToNm j = Mod
   | exact rfl
   | skip
     unfold Generated.C11.ansiJToNm Model.C11.ansiJToNm
-    simp only [ansi_row j hj]
+    (try simp only [])
+    rw [ansi_row_gen j hj] <;> first | ring1 | skip
+    all_goals (refine Prod.ext ?_ ?_ <;> (try simp only []) <;> ring1)
+
 
 /-- `nm_to_ansi_j` is `(n(n+2)+m)/2` with exact division on every valid pair -/
 theorem gen_nmToAnsiJ (n m : Int) (h : Valid n m) : Generated.C11.nmToAnsiJ n m = Model.C11.nmToAnsiJ n m := by
@@ -47,9 +59,13 @@ theorem gen_nmToAnsiJ (n m : Int) (h : Valid n m) : Generated.C11.nmToAnsiJ n m 
   | exact rfl
   | skip
     have e := ansi_formula n m h
+    have eq : (2 : Rat) * (Model.C11.nmToAnsiJ n m : Rat) = (n : Rat) * (n + 2) + m := by exact_mod_cast e
     unfold Generated.C11.nmToAnsiJ
-    rw [Py.int_half_even _ (by omega)]
-    rfl
+    (try simp only [])
+    first
+    | (apply Py.int_shift0; push_cast; linear_combination (-(1 : Rat) / 2) * eq)
+    | (apply Py.int_shift; push_cast; linear_combination (-(1 : Rat) / 2) * eq)
+
 
 /-- `fringe_to_nm` (exact square root, exact rational arithmetic) is the closed form, every `j` -/
 theorem gen_fringeToNm (j : Int) : Generated.C11.fringeToNm j = Model.C11.fringeToNm j := by
@@ -57,47 +73,43 @@ theorem gen_fringeToNm (j : Int) : Generated.C11.fringeToNm j = Model.C11.fringe
   | exact rfl
   | skip
     unfold Generated.C11.fringeToNm Model.C11.fringeToNm
-    simp only
-    generalize pyCeilSqrt j - 1 = k
-    have e1 : (((2 * k : Int) : Int) : Rat) / (2 : Rat) = ((k : Int) : Rat) := by push_cast; ring
-    have e2 : ((j : Int) : Rat) - ((((k : Int) : Rat)) ^ 2 + (1 : Rat)) = ((j - k * k - 1 : Int) : Rat) := by
-      push_cast; ring
-    rw [e1, e2]
-    generalize j - k * k - 1 = r
-    rw [floor_half, Py.modQ_two]
-    have e3 : ((k : Int) : Rat) + (((r / 2 : Int)) : Rat) = ((k + r / 2 : Int) : Rat) := by push_cast; ring
-    rw [e3]
-    have e4 : (((2 * k : Int) : Rat) - ((k + r / 2 : Int) : Rat)) * ((1 : Rat) - ((r % 2 : Int) : Rat) * (2 : Rat))
-        = (((2 * k - (k + r / 2)) * (1 - 2 * (r % 2)) : Int) : Rat) := by push_cast; ring
-    rw [e4, Py.int_intCast, Py.int_intCast]
+    (try simp only [])
+    generalize pyCeilSqrt j = c
+    -- the position inside the block, `r = j - k² - 1` with `k = c - 1`
+    rw [floor_eq_of _ (j - (c - 1) * (c - 1) - 1), modQ_eq_of _ _ (j - (c - 1) * (c - 1) - 1)]
+    · refine Prod.ext ?_ ?_ <;> (try simp only []) <;> (apply Py.int_shift0; push_cast; ring1)
+    all_goals first | (push_cast; ring1) | norm_num
+
 
 /-- `nm_to_fringe` (exact rational arithmetic) is the closed form on every valid pair -/
 theorem gen_nmToFringe (n m : Int) (h : Valid n m) : Generated.C11.nmToFringe n m = Model.C11.nmToFringe n m := by
   first
   | exact rfl
   | skip
-    unfold Generated.C11.nmToFringe Model.C11.nmToFringe Generated.C11.sign
-    simp only [Valid] at h
-    obtain ⟨h1, h2⟩ := h
-    have hab : (if m < 0 then -m else m) = iabs m := rfl
-    simp only [hab]
-    generalize iabs m = a at *
-    obtain ⟨k, hk⟩ : ∃ k : Int, n + a = 2 * k := ⟨(n + a) / 2, by omega⟩
-    have hk2 : 2 * k / 2 = k := by omega
-    rw [hk, hk2]
-    by_cases hm : m < 0
-    · have hm' : ¬ (0 ≤ m) := by omega
-      simp only [hm, hm', if_true, if_false]
-      have : ((1 : Rat) + ((2 * k : Int) : Rat) / (2 : Rat)) ^ 2 - (((2 : Int) * a : Int) : Rat)
-          - (((1 : Int) + (-1 : Int) : Int) : Rat) / (2 : Rat) = (((1 + k) * (1 + k) - 2 * a - 0 : Int) : Rat) := by
-        push_cast; ring
-      rw [this, Py.int_intCast]
-    · have hm' : 0 ≤ m := by omega
-      simp only [hm, hm', if_true, if_false]
-      have : ((1 : Rat) + ((2 * k : Int) : Rat) / (2 : Rat)) ^ 2 - (((2 : Int) * a : Int) : Rat)
-          - (((1 : Int) + (1 : Int) : Int) : Rat) / (2 : Rat) = (((1 + k) * (1 + k) - 2 * a - 1 : Int) : Rat) := by
-        push_cast; ring
-      rw [this, Py.int_intCast]
+    rcases valid_block n m h with ⟨hm, k, rfl⟩ | ⟨hm, k, rfl⟩
+    · -- sine terms, m < 0
+      rw [nmToFringe_neg k m hm]
+      have f1 : ¬ (0 ≤ m) := by omega
+      have f2 : ¬ (0 < m) := by omega
+      have f3 : m ≤ 0 := by omega
+      have f4 : ¬ (m = 0) := by omega
+      have f5 : m ≠ 0 := f4
+      unfold Generated.C11.nmToFringe
+      simp only [Generated.C11.sign, hm, f1, f2, f3, f4, f5, ge_iff_le, gt_iff_lt, if_true, if_false, ne_eq,
+        not_true_eq_false, not_false_eq_true]
+      first
+      | (apply Py.int_shift; push_cast; ring1)
+      | (apply Py.int_shift0; push_cast; ring1)
+    · -- cosine terms and m = 0
+      rw [nmToFringe_nonneg k m hm]
+      have f1 : ¬ (m < 0) := by omega
+      have f3 : ¬ (m ≤ -1) := by omega
+      unfold Generated.C11.nmToFringe
+      simp only [Generated.C11.sign, hm, f1, f3, ge_iff_le, if_true, if_false]
+      first
+      | (apply Py.int_shift; push_cast; ring1)
+      | (apply Py.int_shift0; push_cast; ring1)
+
 
 /-- `noll_to_nm`: the list it builds is long enough (no IndexError, negative index in range) and the result is the closed form, every `j ≥ 1` -/
 theorem gen_nollToNm (j : Int) (hj : 1 ≤ j) : Generated.C11.nollToNm j = some (Model.C11.nollToNm j) := by
@@ -109,7 +121,11 @@ theorem gen_nollToNm (j : Int) (hj : 1 ≤ j) : Generated.C11.nollToNm j = some 
     unfold Generated.C11.nollToNm
     have hoj : Generated.C11.isOdd j = j % 2 := rfl
     have hon : Generated.C11.isOdd n = n % 2 := rfl
-    simp only [noll_row j hj, ← hn, hoj, hon]
+    simp only []
+    -- the row: ⌈(-1 + √(1 + 8j))/2⌉ - 1 = n, however the summands are written
+    rw [noll_row_gen j hj] <;> first | ring1 | skip
+    have hrow : ((triRoot (j - 1).toNat : Nat) : Int) + 1 - 1 = n := by omega
+    simp only [hrow, hoj, hon]
     by_cases h0 : n = 0
     · subst h0
       have : p = 0 := by omega
@@ -117,52 +133,43 @@ theorem gen_nollToNm (j : Int) (hj : 1 ≤ j) : Generated.C11.nollToNm j = some 
       simp
     · rw [if_neg h0]
       have hn0 : 0 ≤ n := by omega
-      have hser : Py.int ((((n + 1) * (n + 2) : Int) : Rat) / 2) = tri (n + 1) := by
-        have t := two_mul_tri (n + 1)
-        have : (n + 1) * (n + 1 + 1) = (n + 1) * (n + 2) := by ring
-        rw [Py.int_half_even _ (by omega)]; unfold tri; rw [this]
+      -- nseries = T(n+1), as `int(.../2)` or as `...//2`
       have hser2 : (n + 1) * (n + 2) / 2 = tri (n + 1) := by
         have : (n + 1) * (n + 1 + 1) = (n + 1) * (n + 2) := by ring
         unfold tri; rw [this]
-      try simp only [hser]
+      try (rw [int_tri_succ _ n (by push_cast; ring1)])
       try simp only [hser2]
-      have hres : j - tri (n + 1) - 1 = p - (n + 1) := by rw [tri_succ]; omega
-      rw [hres]
+      have hT := tri_succ n
+      -- sign from the parity of j
+      have hsign : (if ¬ (j % 2 = 0) then some (-1 : Int) else some 1) = some (if j % 2 = 1 then -1 else 1) := by
+        rcases Int.emod_two_eq_zero_or_one j with h | h <;> simp [h]
       rcases Int.emod_two_eq_zero_or_one n with hpar | hpar
       · -- even row: [0, 2, 2, 4, 4, …]
-        have hloop : Py.forRange (n / 2) (fun _ s_ => (Py.idx s_ (-1)).bind fun v3_ =>
-              (Py.idx (s_ ++ [v3_ + 2]) (-1)).bind fun v4_ => some (s_ ++ [v3_ + 2] ++ [v4_])) (tab gE 1)
-            = some (tab gE (2 * (n / 2).toNat + 1)) :=
-          forRange_traj _ (fun i => tab gE (2 * i + 1)) (n / 2) (n / 2).toNat rfl (fun i _ => by
-            have := noll_body gE (2 * i) (by unfold gE; push_cast; omega) (by unfold gE; push_cast; omega)
-            simpa [Nat.mul_add, Nat.add_assoc] using this)
         have h1 : ([0] : List Int) = tab gE 1 := by decide
-        simp only [hpar, ne_eq, not_true_eq_false, if_false, Option.bind_some, h1]
-        have hidx := idx_tab_neg gE (2 * (n / 2).toNat + 1) (p - (n + 1)) (by omega) (by omega)
-        have hlen : (((2 * (n / 2).toNat + 1 : Nat) : Int) + (p - (n + 1))).toNat = p.toNat := by omega
-        rw [hlen] at hidx
-        simp only [hloop, Option.bind_some, hidx]
+        simp only [hpar, ne_eq, not_true_eq_false, if_false, if_true, Option.bind_some, hsign, h1]
+        rw [forRange_traj' _ (fun i => tab gE (2 * i + 1)) _ (n / 2).toNat _ rfl rfl (fun i _ => by
+          simp only [idx_tab_last, idx_append_last, Option.bind_some]
+          congr 1
+          apply tab_append2 <;> first | omega | (unfold gE; push_cast; omega))]
+        simp only [Option.bind_some]
+        rw [idx_tab_neg' gE _ _ p.toNat (by push_cast; omega) (by omega) (by push_cast; omega)]
         have hg : gE p.toNat = 2 * ((p + 1) / 2) := by unfold gE; rw [Int.toNat_of_nonneg hp0]
-        rw [hg]
-        rcases Int.emod_two_eq_zero_or_one j with hj2 | hj2 <;> simp [hj2]
+        simp only [Option.bind_some, hg]
+        rcases Int.emod_two_eq_zero_or_one j with hj2 | hj2 <;> simp [hj2] <;> ring1
       · -- odd row: [1, 1, 3, 3, …]
-        have hloop : Py.forRange (n / 2) (fun _ s_ => (Py.idx s_ (-1)).bind fun v3_ =>
-              (Py.idx (s_ ++ [v3_ + 2]) (-1)).bind fun v4_ => some (s_ ++ [v3_ + 2] ++ [v4_])) (tab gO 2)
-            = some (tab gO (2 * (n / 2).toNat + 2)) :=
-          forRange_traj _ (fun i => tab gO (2 * i + 2)) (n / 2) (n / 2).toNat rfl (fun i _ => by
-            have := noll_body gO (2 * i + 1) (by unfold gO; push_cast; omega) (by unfold gO; push_cast; omega)
-            simpa [Nat.mul_add, Nat.add_assoc] using this)
         have h1 : ([1, 1] : List Int) = tab gO 2 := by decide
-        have hne : n % 2 ≠ 0 := by omega
         have hne0 : ¬ (n % 2 = 0) := by omega
-        simp only [hpar, ne_eq, one_ne_zero, not_false_eq_true, if_true, Option.bind_some, h1, hne0, if_false]
-        have hidx := idx_tab_neg gO (2 * (n / 2).toNat + 2) (p - (n + 1)) (by omega) (by omega)
-        have hlen : (((2 * (n / 2).toNat + 2 : Nat) : Int) + (p - (n + 1))).toNat = p.toNat := by omega
-        rw [hlen] at hidx
-        simp only [hloop, Option.bind_some, hidx]
+        simp only [hpar, ne_eq, one_ne_zero, not_false_eq_true, if_true, Option.bind_some, hsign, h1, hne0, if_false]
+        rw [forRange_traj' _ (fun i => tab gO (2 * i + 2)) _ (n / 2).toNat _ rfl rfl (fun i _ => by
+          simp only [idx_tab_last, idx_append_last, Option.bind_some]
+          congr 1
+          apply tab_append2 <;> first | omega | (unfold gO; push_cast; omega))]
+        simp only [Option.bind_some]
+        rw [idx_tab_neg' gO _ _ p.toNat (by push_cast; omega) (by omega) (by push_cast; omega)]
         have hg : gO p.toNat = 2 * (p / 2) + 1 := by unfold gO; rw [Int.toNat_of_nonneg hp0]
-        rw [hg]
-        rcases Int.emod_two_eq_zero_or_one j with hj2 | hj2 <;> simp [hj2]
+        simp only [Option.bind_some, hg]
+        rcases Int.emod_two_eq_zero_or_one j with hj2 | hj2 <;> simp [hj2] <;> ring1
+
 
 /-- `xy_j_to_mn`: both `while` loops terminate within `j` iterations (the fuel never runs out) and the result is the closed form `(d - p, p)`, every `j ≥ 1` -/
 theorem gen_xyJToMn (j : Int) (hj : 1 ≤ j) : Generated.C11.xyJToMn j = some (Model.C11.xyJToMn j) := by
@@ -190,70 +197,62 @@ theorem gen_xyJToMn (j : Int) (hj : 1 ≤ j) : Generated.C11.xyJToMn j = some (M
       omega
     have htd := le_tri d hd0
     have hT : tri (d + 1) = tri d + d + 1 := tri_succ d
+    simp only []
     -- first loop: k climbs to d + 2, max_j to tri (d + 1)
-    have loop1 : Py.whileFuel (fun s_ : Int × Int => decide (s_.2 < j))
-        (fun s_ => some (s_.1 + 1, s_.1 * (s_.1 + 1) / 2)) j.toNat ((2 : Int), (2 : Int) * (2 + 1) / 2)
-        = some (d + 2, tri (d + 1)) := by
-      have := whileFuel_traj (fun s_ : Int × Int => decide (s_.2 < j))
-        (fun s_ => some (s_.1 + 1, s_.1 * (s_.1 + 1) / 2))
-        (fun i => (((i : Int) + 2), if i = 0 then 3 else tri ((i : Int) + 1))) d.toNat j.toNat (by omega)
-        (fun i hi => by
-          simp only [decide_eq_true_eq]
-          split
-          · omega
-          · have := tri_mono ((i : Int) + 1) d (by omega) (by omega); omega)
-        (fun i hi => by
-          simp only [Option.some.injEq, Prod.mk.injEq]
-          refine ⟨by push_cast; ring, ?_⟩
-          rw [if_neg (by omega)]
-          unfold tri; push_cast
-          have : ((i : Int) + 2) * ((i : Int) + 2 + 1) = ((i : Int) + 1 + 1) * ((i : Int) + 1 + 1 + 1) := by ring
-          rw [this])
-        (by
-          simp only [decide_eq_false_iff_not, not_lt]
-          rw [if_neg (by omega), Int.toNat_of_nonneg hd0]; omega)
-      simp only [Nat.cast_zero, zero_add, if_true] at this
-      rw [if_neg (by omega), Int.toNat_of_nonneg hd0] at this
-      exact this
-    simp only [] at loop1 ⊢
-    rw [loop1]
+    rw [whileFuel_traj' _ _ (fun i => (((i : Int) + 2), if i = 0 then 3 else tri ((i : Int) + 1))) d.toNat _ _
+      (by simp only [Nat.cast_zero, zero_add, if_true, Prod.mk.injEq]; constructor <;> first | trivial | omega | decide) (by omega)
+      (fun i hi => by
+        simp only [decide_eq_true_eq]
+        split
+        · omega
+        · have := tri_mono ((i : Int) + 1) d (by omega) (by omega); omega)
+      (fun i hi => by
+        simp only [Option.some.injEq, Prod.mk.injEq]
+        refine ⟨by push_cast; ring1, ?_⟩
+        rw [if_neg (by omega)]
+        unfold tri; push_cast
+        congr 1 <;> ring1)
+      (by
+        simp only [decide_eq_false_iff_not, not_lt]
+        rw [if_neg (by omega), Int.toNat_of_nonneg hd0]; omega)]
     simp only [Option.bind_some]
-    have hk : d + 2 - 2 = d := by ring
-    have hlx : tri (d + 1) - (d + 2) + 2 = tri d + 1 := by omega
-    simp only [hk, hlx]
-    have hdy : (if j - tri (d + 1) < 0 then -(j - tri (d + 1)) else j - tri (d + 1)) = d - p := by split <;> omega
-    have hdx : (if j - (tri d + 1) < 0 then -(j - (tri d + 1)) else j - (tri d + 1)) = p := by split <;> omega
-    rw [hdy, hdx]
+    rw [if_neg (show ¬ (d.toNat = 0) by omega), Int.toNat_of_nonneg hd0]
     -- both walks (from the pure-y end, from the pure-x end) arrive at the same cell, whichever the code picks
-    have loop2 : Py.whileFuel (fun s_ : Int × Int × Int => decide (s_.1 ≠ j))
-        (fun s_ => some (s_.1 - 1, s_.2.1 + 1, s_.2.2 - 1)) j.toNat (tri (d + 1), (0 : Int), d)
-        = some (j, d - p, p) := by
-      have := whileFuel_traj (fun s_ : Int × Int × Int => decide (s_.1 ≠ j))
-        (fun s_ => some (s_.1 - 1, s_.2.1 + 1, s_.2.2 - 1))
-        (fun i => (tri (d + 1) - (i : Int), (i : Int), d - (i : Int))) (d - p).toNat j.toNat (by omega)
-        (fun i hi => by simp only [decide_eq_true_eq]; omega)
-        (fun i hi => by
-          simp only [Option.some.injEq, Prod.mk.injEq]; push_cast; refine ⟨by ring, by ring, by ring⟩)
-        (by simp only [decide_eq_false_iff_not, not_not]; omega)
-      simp only [Nat.cast_zero, sub_zero] at this
-      rw [this, Int.toNat_of_nonneg (by omega)]
+    have loop2 : ∀ (c : Int × Int × Int → Bool) (b : Int × Int × Int → Option (Int × Int × Int)) (s0 : Int × Int × Int),
+        (∀ s, c s = decide (s.1 ≠ j)) → (∀ s, b s = some (s.1 - 1, s.2.1 + 1, s.2.2 - 1)) →
+        s0 = (tri (d + 1), (0 : Int), d) → Py.whileFuel c b j.toNat s0 = some (j, d - p, p) := by
+      intro c b s0 hc hb hs
+      rw [whileFuel_traj' c b (fun i => (tri (d + 1) - (i : Int), (i : Int), d - (i : Int))) (d - p).toNat _ _
+        (by rw [hs]; simp) (by omega)
+        (fun i hi => by rw [hc]; simp only [decide_eq_true_eq]; omega)
+        (fun i hi => by rw [hb]; simp only [Option.some.injEq, Prod.mk.injEq]; push_cast; refine ⟨by ring1, by ring1, by ring1⟩)
+        (by rw [hc]; simp only [decide_eq_false_iff_not, not_not]; omega)]
+      rw [Int.toNat_of_nonneg (by omega)]
       simp only [Option.some.injEq, Prod.mk.injEq]
-      refine ⟨by omega, trivial, by ring⟩
-    have loop3 : Py.whileFuel (fun s_ : Int × Int × Int => decide (s_.1 ≠ j))
-        (fun s_ => some (s_.1 + 1, s_.2.1 - 1, s_.2.2 + 1)) j.toNat (tri d + 1, d, (0 : Int))
-        = some (j, d - p, p) := by
-      have := whileFuel_traj (fun s_ : Int × Int × Int => decide (s_.1 ≠ j))
-        (fun s_ => some (s_.1 + 1, s_.2.1 - 1, s_.2.2 + 1))
-        (fun i => (tri d + 1 + (i : Int), d - (i : Int), (i : Int))) p.toNat j.toNat (by omega)
-        (fun i hi => by simp only [decide_eq_true_eq]; omega)
-        (fun i hi => by
-          simp only [Option.some.injEq, Prod.mk.injEq]; push_cast; refine ⟨by ring, by ring, rfl⟩)
-        (by simp only [decide_eq_false_iff_not, not_not]; omega)
-      simp only [Nat.cast_zero, sub_zero, add_zero] at this
-      rw [this, Int.toNat_of_nonneg hp0]
+      refine ⟨by omega, trivial, by ring1⟩
+    have loop3 : ∀ (c : Int × Int × Int → Bool) (b : Int × Int × Int → Option (Int × Int × Int)) (s0 : Int × Int × Int),
+        (∀ s, c s = decide (s.1 ≠ j)) → (∀ s, b s = some (s.1 + 1, s.2.1 - 1, s.2.2 + 1)) →
+        s0 = (tri d + 1, d, (0 : Int)) → Py.whileFuel c b j.toNat s0 = some (j, d - p, p) := by
+      intro c b s0 hc hb hs
+      rw [whileFuel_traj' c b (fun i => (tri d + 1 + (i : Int), d - (i : Int), (i : Int))) p.toNat _ _
+        (by rw [hs]; simp) (by omega)
+        (fun i hi => by rw [hc]; simp only [decide_eq_true_eq]; omega)
+        (fun i hi => by rw [hb]; simp only [Option.some.injEq, Prod.mk.injEq]; push_cast; refine ⟨by ring1, by ring1, rfl⟩)
+        (by rw [hc]; simp only [decide_eq_false_iff_not, not_not]; omega)]
+      rw [Int.toNat_of_nonneg hp0]
       simp only [Option.some.injEq, Prod.mk.injEq]
       exact ⟨by omega, trivial⟩
-    split <;> simp only [loop2, loop3, Option.bind_some]
+    -- every conditional on the way (|j - y_end|, |j - x_end|, which walk) is split; each leaf is one of the two walks
+    repeat' split
+    all_goals first
+      | (rw [loop2] <;> first
+          | (simp only [Option.bind_some]; done)
+          | (intro s; first | rfl | (congr 1; refine Prod.ext ?_ (Prod.ext ?_ ?_) <;> (try dsimp only) <;> ring1) | (simp [eq_comm]; done))
+          | (refine Prod.ext ?_ (Prod.ext ?_ ?_) <;> (try dsimp only) <;> omega))
+      | (rw [loop3] <;> first
+          | (simp only [Option.bind_some]; done)
+          | (intro s; first | rfl | (congr 1; refine Prod.ext ?_ (Prod.ext ?_ ?_) <;> (try dsimp only) <;> ring1) | (simp [eq_comm]; done))
+          | (refine Prod.ext ?_ (Prod.ext ?_ ?_) <;> (try dsimp only) <;> omega))
 
 /-- `xy_j_to_mn` raises for `j < 1` -/
 theorem gen_xyJToMn_raises (j : Int) (hj : j < 1) : Generated.C11.xyJToMn j = none := by
@@ -261,7 +260,7 @@ theorem gen_xyJToMn_raises (j : Int) (hj : j < 1) : Generated.C11.xyJToMn j = no
 
 /-! ## 2. the property, over the generated definitions -/
 
-/-- `Valid n m` is the usual condition `|m| ≤ n`, `n - |m|` even -/
+/-- (definition bridge) the executable `Valid n m` used in every statement below is the property's wording `|m| ≤ n`, `n - |m|` even -/
 theorem valid_iff (n m : Int) : Valid n m ↔ (|m| ≤ n ∧ 2 ∣ n - |m|) := by
   have : iabs m = |m| := by
     unfold iabs; split
@@ -446,6 +445,13 @@ theorem ansi_n_is_source_formula (j : Nat) :
   simp only
   exact (ansi_row _ (Int.natCast_nonneg j)).symm
 
+/-- the group computed by (the translation of) `fringe_to_nm` is the source formula `n + |m| = 2(⌈√j⌉ - 1)` over the reals -/
+theorem fringe_group_is_source_formula (j : Nat) (hj : 1 ≤ j) :
+    (Generated.C11.fringeToNm (j : Int)).1 + |(Generated.C11.fringeToNm (j : Int)).2|
+      = 2 * (⌈Real.sqrt (j : ℝ)⌉ - 1) := by
+  rw [ceil_sqrt_exact, gen_fringeToNm]
+  exact fringe_group (j : Int) (by exact_mod_cast hj)
+
 /-- the radial order computed by (the translation of) `noll_to_nm` is the source formula `⌈(-1 + √(1 + 8j))/2⌉ - 1` over the reals -/
 theorem noll_n_is_source_formula (j : Nat) (hj : 1 ≤ j) (q : Int × Int)
     (h : Generated.C11.nollToNm (j : Int) = some q) :
@@ -459,6 +465,64 @@ theorem noll_n_is_source_formula (j : Nat) (hj : 1 ≤ j) (q : Int × Int)
   unfold Model.C11.nollToNm
   simp only
   exact (noll_row _ hj').symm
+
+/-! ### the floating-point step itself, over an abstract correctly rounded square root
+
+`fl` stands for rounding to binary64: relative error at most `2^-53`, monotone, exact on the integers up to `2^26`
+(all three hold for IEEE-754 round-to-nearest; they are the hypotheses, `fl = id` shows they are consistent).
+`np.sqrt` is `fl ∘ √` (IEEE requires a correctly rounded square root), `np.ceil` is exact.  Not formalised: that the
+`-3 + y`, `-1 + y`, `/ 2` and the arithmetic on the resulting integer-valued doubles are exact in binary64
+(they are, for these magnitudes, by Sterbenz-type arguments); those steps are taken as real-number operations here. -/
+
+/-- float `ceil(sqrt(D))` is the exact `⌈√D⌉` for every `D < 2^52` (sharp: false for IEEE binary64 at `D = 2^52 + 1`) -/
+theorem float_ceil_sqrt_exact (fl : ℝ → ℝ) (hrel : ∀ x : ℝ, 0 ≤ x → |fl x - x| ≤ x / 2 ^ 53)
+    (hmono : Monotone fl) (hint : ∀ z : ℕ, z ≤ 2 ^ 26 → fl (z : ℝ) = z) (D : ℕ) (hD : D < 2 ^ 52) :
+    ⌈fl (Real.sqrt (D : ℝ))⌉ = pyCeilSqrt (D : Int) := by
+  unfold pyCeilSqrt; rw [float_ceil_sqrt fl hrel hmono hint D hD]; simp
+
+/-- ANSI with the rounded square root: for `9 + 8j < 2^52` the radial order of (the translation of) `ansi_j_to_nm`
+    is `⌈(-3 + fl√(9 + 8j))/2⌉` -/
+theorem ansi_float_formula (fl : ℝ → ℝ) (hrel : ∀ x : ℝ, 0 ≤ x → |fl x - x| ≤ x / 2 ^ 53)
+    (hmono : Monotone fl) (hint : ∀ z : ℕ, z ≤ 2 ^ 26 → fl (z : ℝ) = z) (j : ℕ) (hj : 9 + 8 * j < 2 ^ 52) :
+    (Generated.C11.ansiJToNm (j : Int)).1 = ⌈((-3 : ℝ) + fl (Real.sqrt ((9 + 8 * j : ℕ) : ℝ))) / 2⌉ := by
+  have h := ceil_div_add_real (-3) (fl (Real.sqrt ((9 + 8 * j : ℕ) : ℝ))) 2 (by decide)
+  rw [float_ceil_sqrt_exact fl hrel hmono hint _ hj] at h
+  push_cast at h ⊢
+  rw [h, gen_ansiJToNm _ (Int.natCast_nonneg j)]
+  unfold Model.C11.ansiJToNm
+  simp only
+  exact (ansi_row _ (Int.natCast_nonneg j)).symm
+
+/-- Noll with the rounded square root: for `1 + 8j < 2^52` the radial order of (the translation of) `noll_to_nm`
+    is `⌈(-1 + fl√(1 + 8j))/2⌉ - 1` -/
+theorem noll_float_formula (fl : ℝ → ℝ) (hrel : ∀ x : ℝ, 0 ≤ x → |fl x - x| ≤ x / 2 ^ 53)
+    (hmono : Monotone fl) (hint : ∀ z : ℕ, z ≤ 2 ^ 26 → fl (z : ℝ) = z) (j : ℕ) (hj1 : 1 ≤ j) (hj : 1 + 8 * j < 2 ^ 52)
+    (q : Int × Int) (hq : Generated.C11.nollToNm (j : Int) = some q) :
+    q.1 = ⌈((-1 : ℝ) + fl (Real.sqrt ((1 + 8 * j : ℕ) : ℝ))) / 2⌉ - 1 := by
+  have h := ceil_div_add_real (-1) (fl (Real.sqrt ((1 + 8 * j : ℕ) : ℝ))) 2 (by decide)
+  rw [float_ceil_sqrt_exact fl hrel hmono hint _ hj] at h
+  push_cast at h
+  have hj' : (1 : Int) ≤ j := by exact_mod_cast hj1
+  rw [gen_nollToNm _ hj'] at hq
+  cases hq
+  push_cast
+  rw [h]
+  unfold Model.C11.nollToNm
+  simp only
+  exact (noll_row _ hj').symm
+
+/-- Fringe with the rounded square root: for `1 ≤ j < 2^52` the group of (the translation of) `fringe_to_nm` is
+    `n + |m| = 2 (⌈fl√j⌉ - 1)` -/
+theorem fringe_float_formula (fl : ℝ → ℝ) (hrel : ∀ x : ℝ, 0 ≤ x → |fl x - x| ≤ x / 2 ^ 53)
+    (hmono : Monotone fl) (hint : ∀ z : ℕ, z ≤ 2 ^ 26 → fl (z : ℝ) = z) (j : ℕ) (hj1 : 1 ≤ j) (hj : j < 2 ^ 52) :
+    (Generated.C11.fringeToNm (j : Int)).1 + |(Generated.C11.fringeToNm (j : Int)).2|
+      = 2 * (⌈fl (Real.sqrt (j : ℝ))⌉ - 1) := by
+  rw [float_ceil_sqrt_exact fl hrel hmono hint j hj, gen_fringeToNm]
+  exact fringe_group (j : Int) (by exact_mod_cast hj1)
+
+/-- the hypotheses on `fl` are consistent (exact arithmetic satisfies them) -/
+example : ∃ fl : ℝ → ℝ, (∀ x : ℝ, 0 ≤ x → |fl x - x| ≤ x / 2 ^ 53) ∧ Monotone fl ∧ ∀ z : ℕ, z ≤ 2 ^ 26 → fl (z : ℝ) = z :=
+  ⟨id, fun x hx => by simp; positivity, monotone_id, fun _ _ => rfl⟩
 
 /-! ## non-vacuity: concrete instances -/
 example : Valid 4 (-2) ∧ ¬ Valid 4 3 ∧ ¬ Valid 2 4 := by decide
